@@ -80,9 +80,10 @@ example (P : Params K) (tree : Tree K V) (progs : List (List (COp K V))) :
     park position, in every reachable configuration. -/
 theorem C09_held_by_position_always (P : Params K) (tree : Tree K V) (progs : List (List (COp K V)))
     (ht : TreeOk none tree) (ho : tree.order = P.order) (hp : PadOk P) (hd : Disciplined progs)
+    (hdel : 4 ≤ tree.order ∨ NoDelete progs)
     (c : Config K V) (hr : Reachable (Config.init P tree progs) c) :
     ∀ th ∈ c.threads, List.Perm th.held (cursorLocks th.cursor ++ parkHeld th.park) :=
-  C09_held_by_position P tree progs c hr (reachable_cinv P tree progs ht ho hp hd c hr).alive
+  C09_held_by_position P tree progs c hr (reachable_cinv P tree progs ht ho hp hd hdel c hr).alive
 
 /-- **C09 (afterwards every operation on any key completes).** Whenever some thread still
     has work to do and no thread has ended with an open cursor — in particular after any
@@ -90,9 +91,10 @@ theorem C09_held_by_position_always (P : Params K) (tree : Tree K V) (progs : Li
     step: no lock left behind can block the rest (this is deadlock freedom, C06). -/
 theorem C09_then_completes (P : Params K) (tree : Tree K V) (progs : List (List (COp K V)))
     (ht : TreeOk none tree) (ho : tree.order = P.order) (hp : PadOk P) (hd : Disciplined progs)
+    (hdel : 4 ≤ tree.order ∨ NoDelete progs)
     (c : Config K V) (hr : Reachable (Config.init P tree progs) c)
     (hfin : FinishedClean c) (hu : c.unfinished = true) : c.enabledSet ≠ [] :=
-  let hinv := reachable_cinv P tree progs ht ho hp hd c hr
+  let hinv := reachable_cinv P tree progs ht ho hp hd hdel c hr
   ranked_not_deadlocked (posRank c.tree) c hinv.s.owner (sinv_ranked c hinv.s) hfin hu
 
 end Gobptree.Conc
